@@ -505,3 +505,69 @@ def string_to_enum_table(fx, fn, enum_adt):
                                         strs.add(lf.data["str"])
                 out.setdefault(v, set()).update(strs)
     return out
+
+
+def check_structural_equality(ctx, rule, root_adt, fields):
+    """The `==` the agreement / digest checks rely on compares everything: every local type inside the compared fields has a
+    derived PartialEq, or a hand-written one that compares the whole field (a call to PartialEq on both sides' field) or at least
+    the lengths before any element-wise walk (a `zip` over two digests of different length stops at the shorter one)."""
+    import re
+    from ..core import callee_name, norm, as_cmp, leaf_s
+    from ..guards import body_of
+    fx = ctx.fx
+    adt = fx.adts.get(root_adt)
+    if not adt:
+        ctx.bad(rule, "structural equality", "%s not found" % root_adt)
+        return
+    todo, seen = [], set()
+    for fl in adt["variants"][0]["fields"]:
+        if fl["name"] in fields:
+            todo.append(fl["ty"])
+    while todo:
+        ty = todo.pop()
+        for nme in re.findall(r"[A-Za-z_][A-Za-z0-9_]*(?:::[A-Za-z_][A-Za-z0-9_]*)+", ty):
+            if nme in fx.adts and nme not in seen:
+                seen.add(nme)
+                for v in fx.adts[nme]["variants"]:
+                    for fl in v["fields"]:
+                        todo.append(fl["ty"])
+    n = 0
+    for a in sorted(seen):
+        impls = [im for im in fx.impls if norm(im.get("trait")) == "std::cmp::PartialEq" and im.get("self_adt") == a]
+        if not impls:
+            ctx.bad(rule, "%s equality" % a.split("::")[-1], "type inside the compared artifact maps has no PartialEq impl")
+            continue
+        for im in impls:
+            for m in im["methods"]:
+                f = fx.fns.get(m["key"])
+                if not f or m["name"] != "eq":
+                    continue
+                n += 1
+                if "d:PartialEq" in (f.get("exp") or ""):
+                    ctx.ok(rule, "%s equality" % a.split("::")[-1], "derived PartialEq (all fields compared)", f["at"])
+                    continue
+                b = ctx.region(None, policy="private", key=f["key"], ps=True)
+                def side(op):
+                    lv = b.trace(op, (), None, {"__flow_all__": lambda t: (callee_name(t) or "").split("::")[-1] in ("len", "as_slice", "as_ref", "deref", "as_bytes", "as_str")})
+                    ps = {l.data for l in lv if l.kind == "param"}
+                    return next(iter(ps)) if len(ps) == 1 and all(l.kind in ("param", "const") for l in lv) else None
+                whole = False
+                for (i, t) in b.calls():
+                    if norm(t.get("trait")) == "std::cmp::PartialEq" and len(t["args"]) == 2:
+                        if {side(t["args"][0]), side(t["args"][1])} == {1, 2}:
+                            whole = True
+                lens = False
+                for (e, tb, fa) in b.all_edge_facts():
+                    c = as_cmp(fa)
+                    if c and c[0] in ("Eq", "Ne"):
+                        if {side(c[1]), side(c[2])} == {1, 2}:
+                            lens = True
+                for i in sorted(b.reach):
+                    for st in b.blocks[i]["stmts"]:
+                        if st["k"] == "assign" and st["rv"]["k"] == "binop" and st["rv"]["op"] in ("Eq", "Ne") and \
+                                {side(st["rv"]["a"]), side(st["rv"]["b"])} == {1, 2}:
+                            lens = True
+                ctx.inst(rule, "%s equality" % a.split("::")[-1], whole or lens,
+                         "hand-written PartialEq: compares the two values' field as a whole: %s; compares their lengths / the values with ==: %s" % (whole, lens), f["at"])
+    if n == 0:
+        ctx.bad(rule, "structural equality", "no PartialEq impl found for the types inside %s.%s" % (root_adt, sorted(fields)))
